@@ -291,6 +291,10 @@ def run(ctx):
     import roles as _roles
     _roles.rule_R_ROLE(ctx, modules=('conversion::string::impl_enum::parser', 'conversion::inter_type', 'enum_narsese::term'))
     _roles.rule_A_NAMES(ctx, modules=('conversion::string::impl_enum::parser', 'conversion::inter_type', 'enum_narsese::term'))
+    import lskel as _lskel
+    _lskel.rule_L_SKELETON(ctx, which=('fold', 'term'), floor=10)
+    import maps as _mb
+    _mb.rule_M_BINFILL(ctx)
     ctx.undecided = ["nothing value-dependent: the desugaring and index rules are shape facts; std's usize::from_str is trusted for the decimal syntax"]
     ctx.assumptions = ["Iterator::position returns the first index satisfying the predicate (std)", "usize::from_str parses decimal"]
     ctx.trusted = ["rustc nightly front end / MIR", "mirfacts driver", "python rule layer"]
